@@ -16,7 +16,7 @@ def num_eq(a, b, rel=fractions.Fraction(1, 10 ** 24)):
     return fa == fb or abs(fa - fb) <= abs(fb) * rel
 
 
-def val_eq(a, b, exact_numbers=False):
+def val_eq(a, b, exact_numbers=False, rel=None):
     """Equality that does not confuse bool/int/str, compares numbers by value."""
     if a is None or b is None:
         return a is None and b is None
@@ -25,22 +25,22 @@ def val_eq(a, b, exact_numbers=False):
     if isinstance(a, NUM) and isinstance(b, NUM):
         if exact_numbers:
             return fractions.Fraction(a) == fractions.Fraction(b) if not (isinstance(a, float) and math.isnan(a)) else False
-        return num_eq(a, b)
+        return num_eq(a, b) if rel is None else num_eq(a, b, rel)
     if isinstance(a, (list, tuple)) and isinstance(b, (list, tuple)):
-        return len(a) == len(b) and all(val_eq(x, y, exact_numbers) for x, y in zip(a, b))
+        return len(a) == len(b) and all(val_eq(x, y, exact_numbers, rel) for x, y in zip(a, b))
     if isinstance(a, dict) and isinstance(b, dict):
-        return set(a) == set(b) and all(val_eq(a[k], b[k], exact_numbers) for k in a)
+        return set(a) == set(b) and all(val_eq(a[k], b[k], exact_numbers, rel) for k in a)
     if type(a) is not type(b) and not (isinstance(a, str) and isinstance(b, str)):
         return False
     return a == b
 
 
-def row_eq(g, e, exact_numbers=False):
-    return isinstance(g, dict) and set(g) == set(e) and all(val_eq(g[k], e[k], exact_numbers) for k in e)
+def row_eq(g, e, exact_numbers=False, rel=None):
+    return isinstance(g, dict) and set(g) == set(e) and all(val_eq(g[k], e[k], exact_numbers, rel) for k in e)
 
 
-def rows_eq(got, exp, exact_numbers=False):
-    return len(got) == len(exp) and all(row_eq(g, e, exact_numbers) for g, e in zip(got, exp))
+def rows_eq(got, exp, exact_numbers=False, rel=None):
+    return len(got) == len(exp) and all(row_eq(g, e, exact_numbers, rel) for g, e in zip(got, exp))
 
 
 def first_diff(got, exp, exact_numbers=False):
